@@ -50,6 +50,7 @@ type rcase struct {
 	Procs     int    `json:"procs,omitempty"`
 	G         int    `json:"goroutines,omitempty"`
 	Seed      int64  `json:"seed,omitempty"`
+	Cold      string `json:"cold,omitempty"`
 	Stream    string `json:"stream_base64,omitempty"`
 	Slow      bool   `json:"slow,omitempty"`
 	KeepAlive bool   `json:"keep_alive,omitempty"`
@@ -285,8 +286,8 @@ type raceOut struct {
 	err     error
 }
 
-func runRace(race, repo string, g, procs int, seed int64, budget time.Duration, maxDocs int) raceOut {
-	args := []string{"-repo", repo, "-goroutines", fmt.Sprint(g), "-seed", fmt.Sprint(seed), "-budget", budget.String(), "-docs", fmt.Sprint(maxDocs), "-procs", fmt.Sprint(procs)}
+func runRace(race, repo string, g, procs int, seed int64, budget time.Duration, maxDocs int, cold string) raceOut {
+	args := []string{"-cold", cold, "-repo", repo, "-goroutines", fmt.Sprint(g), "-seed", fmt.Sprint(seed), "-budget", budget.String(), "-docs", fmt.Sprint(maxDocs), "-procs", fmt.Sprint(procs)}
 	cmd := exec.Command(race, args...)
 	cmd.Env = append(os.Environ(), "GORACE=halt_on_error=0 history_size=3")
 	var so, se bytes.Buffer
@@ -353,7 +354,7 @@ func raceSite(rep string) string {
 	return strings.Join(fns, " <- ")
 }
 
-func reportRace(c *core.Ctx, ro raceOut, g, procs int, seed int64) {
+func reportRace(c *core.Ctx, ro raceOut, g, procs int, seed int64, cold string) {
 	if ro.err != nil {
 		c.TieBroken("racework", ro.err.Error(), nil)
 		return
@@ -365,10 +366,10 @@ func reportRace(c *core.Ctx, ro raceOut, g, procs int, seed int64) {
 			continue
 		}
 		seen[site] = true
-		c.Fail("", "DATA RACE reported by the race detector at "+site, rcase{Kind: "race", G: g, Procs: procs, Seed: seed, Detail: rep})
+		c.Fail("", "DATA RACE reported by the race detector at "+site, rcase{Kind: "race", G: g, Procs: procs, Seed: seed, Cold: cold, Detail: rep})
 	}
 	for _, l := range ro.lines {
-		c.Fail("", "race workload: "+l, rcase{Kind: "racework", G: g, Procs: procs, Seed: seed, Detail: l})
+		c.Fail("", "race workload: "+l, rcase{Kind: "racework", G: g, Procs: procs, Seed: seed, Cold: cold, Detail: l})
 	}
 }
 
@@ -376,19 +377,21 @@ func raceRuns(c *core.Ctx, race string) {
 	type cfg struct {
 		g, procs, docs int
 		budget         time.Duration
+		cold           string // narrow first phase on the cold process (see cmd/racework)
 	}
-	cfgs := []cfg{{8, 0, 0, 40 * time.Second}, {4, 2, 120, 20 * time.Second}}
+	cfgs := []cfg{{8, 0, 0, 40 * time.Second, "validate"}, {4, 2, 120, 20 * time.Second, "calculate"}}
 	if c.Thorough() {
-		cfgs = []cfg{{8, 0, 0, 90 * time.Second}, {32, 0, 0, 120 * time.Second}, {4, 2, 0, 90 * time.Second}, {3, 1, 200, 60 * time.Second}, {16, 4, 0, 90 * time.Second}}
+		cfgs = []cfg{{8, 0, 0, 90 * time.Second, "validate"}, {32, 0, 0, 120 * time.Second, "calculate"}, {4, 2, 0, 90 * time.Second, ""},
+			{3, 1, 200, 60 * time.Second, "validate"}, {16, 4, 0, 90 * time.Second, "calculate"}, {16, 0, 0, 30 * time.Second, "validate"}}
 	}
 	for i, cf := range cfgs {
 		seed := c.Seed*100 + int64(i)
 		t := time.Now()
-		ro := runRace(race, c.Repo, cf.g, cf.procs, seed, cf.budget, cf.docs)
+		ro := runRace(race, c.Repo, cf.g, cf.procs, seed, cf.budget, cf.docs, cf.cold)
 		c.Eval(fmt.Sprintf("race:%d", i), true)
-		c.Count(fmt.Sprintf("race.run.g=%d.procs=%d", cf.g, cf.procs), 1)
-		c.Note("race run g=%d procs=%d: %s in %.1fs, %d reports", cf.g, cf.procs, ro.done, time.Since(t).Seconds(), len(ro.reports))
-		reportRace(c, ro, cf.g, cf.procs, seed)
+		c.Count(fmt.Sprintf("race.run.g=%d.procs=%d.cold=%s", cf.g, cf.procs, cf.cold), 1)
+		c.Note("race run g=%d procs=%d cold=%q: %s in %.1fs, %d reports", cf.g, cf.procs, cf.cold, ro.done, time.Since(t).Seconds(), len(ro.reports))
+		reportRace(c, ro, cf.g, cf.procs, seed, cf.cold)
 	}
 }
 
@@ -1175,9 +1178,9 @@ func replay(c *core.Ctx, rc rcase, gobl, race string, before *conc.Snapshot) {
 			}
 		}
 	case "race", "racework":
-		ro := runRace(race, c.Repo, rc.G, rc.Procs, rc.Seed, 60*time.Second, 0)
+		ro := runRace(race, c.Repo, rc.G, rc.Procs, rc.Seed, 60*time.Second, 0, rc.Cold)
 		c.Eval("replay", true)
-		reportRace(c, ro, rc.G, rc.Procs, rc.Seed)
+		reportRace(c, ro, rc.G, rc.Procs, rc.Seed, rc.Cold)
 	case "bulk":
 		home, _ := os.MkdirTemp("", "c15-home-")
 		defer os.RemoveAll(home) //nolint:errcheck
